@@ -101,17 +101,23 @@ def computeScores (m : MMap) : Option (Rat × Option Rat × Option Rat) := do
       pure (some (pyMax 0 (roundHalfUp1 ((ta + (10 - ta) * cdp) * td))))
   pure (base, temporal, env)
 
-/-- `CVSS2(vector)` -/
-def construct (s : Str) : Except Err Obj :=
+/-- `parse_vector()` followed by `check_mandatory()` -/
+def parse (s : Str) : Except Err MMap :=
   match parseNoPrefix tables s with
   | .error e => .error e
   | .ok m =>
     match checkMandatory tables m with
     | .error e => .error e
-    | .ok _ =>
-      match computeScores m with
-      | none => .error .foreign
-      | some (b, t, e) => .ok { vector := s, metrics := m, base := b, temporal := t, env := e }
+    | .ok _ => .ok m
+
+/-- `CVSS2(vector)` -/
+def construct (s : Str) : Except Err Obj :=
+  match parse s with
+  | .error e => .error e
+  | .ok m =>
+    match computeScores m with
+    | none => .error .foreign
+    | some (b, t, e) => .ok { vector := s, metrics := m, base := b, temporal := t, env := e }
 
 /-- `scores()` -/
 def Obj.scores (o : Obj) : List (Option Rat) := [some o.base, o.temporal, o.env]
